@@ -249,6 +249,9 @@ func (st *State) exec(fr *Frame, in ssa.Instruction) bool {
 			// embedded array: its backing store is addressed by an injective function of the parent
 			_ = at
 			np = &Ptr{Kind: PArr, Root: st.ptrTerm(np), T: f.Type()}
+			if st.private[p.Root] {
+				st.private[np.Root] = true // an array embedded in an object this call allocated and has not shared
+			}
 		}
 		fr.env[x] = Val{T: x.Type(), C: []string{st.ptrTerm(np)}, P: np}
 	case *ssa.Field:
@@ -871,6 +874,9 @@ func (st *State) indexAddr(fr *Frame, x *ssa.IndexAddr) Val {
 		root := fmt.Sprintf("(el %s %s)", baseTerm, pos)
 		st.nonnil[root] = true
 		st.assume(fmt.Sprintf("(and (= (el_base %s) %s) (= (el_idx %s) %s) (< %s (- 1000)))", root, baseTerm, root, pos, root))
+		if st.private[baseTerm] {
+			st.private[root] = true
+		}
 		p = &Ptr{Kind: PObj, Root: root, RootT: et, T: et}
 	} else if e.opaqueStruct(et) {
 		root := fmt.Sprintf("(el %s %s)", baseTerm, pos)
